@@ -792,7 +792,7 @@ NS_MV = 3
 
 def units(tier):
     nmax = int(__import__("os").environ.get("VF_NMAX", 0)) or (6 if tier == "quick" else 10)
-    return [unit_nheap_push(nmax), unit_sort_order(nmax), unit_sort_multiset(min(nmax, 8)), unit_sector_nsmax(nmax, 3), unit_moving_select(nmax, 3), unit_sector_define(), unit_sector_sampled(), unit_moving_candidates(), unit_moving_candidates(complete=True)]
+    return [unit_nheap_push(nmax), unit_sort_order(nmax), unit_sort_multiset(min(nmax, 8)), unit_sector_nsmax(nmax, 3), unit_moving_select(nmax, 3), unit_sector_define(), unit_sector_sampled(), unit_moving_candidates()]
 
 
 META = {
